@@ -203,34 +203,31 @@ func c01Traffic(p *l3.Proc, r *vlib.Rand, led *c01Ledger, gen int, crash c01Cras
 						}
 					}
 				default: // settle
-					if cr.Chance(0.08) {
-						// a worker repeating a batch settle whose leases the process no longer knows
-						// (ids from before a restart, or never issued): every id is a conflict
-						led.mu.Lock()
-						var stale []string
-						for n := cr.Range(2, 4); n > 0; n-- {
-							if len(led.stale) > 0 && cr.Bool() {
-								stale = append(stale, led.stale[cr.Intn(len(led.stale))])
-							} else {
-								stale = append(stale, fmt.Sprintf("lease_%016x", cr.U64()))
-							}
-						}
-						led.mu.Unlock()
-						op := vlib.Pick(cr, []string{"ack", "nack"})
-						p.Pull("/pull/p1/"+op, map[string]any{"lease_ids": stale}, "tok")
-						c01StaleBatches.Add(1)
-						continue
-					}
+					// 8%: a worker repeating a batch settle with lease ids of earlier generations
+					// (or never issued). Nearly always every id is a conflict - but a lease the
+					// drain took just before a graceful stop lives for another second in the
+					// next generation, so the answer is recorded like any other settle.
+					staleBatch := cr.Chance(0.08)
 					led.mu.Lock()
 					var leases []string
-					k := 1
-					if cr.Chance(0.3) {
-						k = cr.Range(2, 4)
-					}
-					for j := 0; j < k && len(led.held) > 0; j++ {
-						idx := cr.Intn(len(led.held))
-						leases = append(leases, led.held[idx])
-						led.held = append(led.held[:idx], led.held[idx+1:]...)
+					if staleBatch {
+						for n := cr.Range(2, 4); n > 0; n-- {
+							if len(led.stale) > 0 && cr.Bool() {
+								leases = append(leases, led.stale[cr.Intn(len(led.stale))])
+							} else {
+								leases = append(leases, fmt.Sprintf("lease_%016x", cr.U64()))
+							}
+						}
+					} else {
+						k := 1
+						if cr.Chance(0.3) {
+							k = cr.Range(2, 4)
+						}
+						for j := 0; j < k && len(led.held) > 0; j++ {
+							idx := cr.Intn(len(led.held))
+							leases = append(leases, led.held[idx])
+							led.held = append(led.held[:idx], led.held[idx+1:]...)
+						}
 					}
 					markers := map[string]string{}
 					for _, l := range leases {
@@ -241,6 +238,10 @@ func c01Traffic(p *l3.Proc, r *vlib.Rand, led *c01Ledger, gen int, crash c01Cras
 						continue
 					}
 					kind := vlib.Pick(cr, []string{"ack", "ack", "nack", "dead"})
+					if staleBatch {
+						kind = vlib.Pick(cr, []string{"ack", "nack"})
+						c01StaleBatches.Add(1)
+					}
 					var body map[string]any
 					if len(leases) == 1 {
 						body = map[string]any{"lease_id": leases[0]}
